@@ -338,6 +338,9 @@ class Interp:
             if fr.returns_heap is not None if hasattr(fr, "returns_heap") else False:
                 pass
             ret = fr.returns if fr.returns is not None else NONE
+            if getattr(fr, "yields", None) is not None:
+                # a generator function: its caller sees the sequence of yielded values (order abstracted away)
+                ret = AV(kinds=["list"], regions=["F"], elem=fr.yields)
             # heap: join of heaps at every return point
             hs = getattr(fr, "heaps", [])
             if flow.normal is not None:
@@ -698,6 +701,18 @@ class Interp:
         self.emit("mutate", how, base, node, {"regions": sorted(regs)})
 
     # -- expressions ----------------------------------------------------------
+    def e_Yield(self, x, st):
+        fr = self.stack[-1]
+        v = self.eval(x.value, st) if x.value is not None else NONE
+        fr.yields = join(getattr(fr, "yields", None), v)
+        return NONE
+
+    def e_YieldFrom(self, x, st):
+        fr = self.stack[-1]
+        v = self.eval(x.value, st)
+        fr.yields = join(getattr(fr, "yields", None), v.elem if v.elem is not None else v)
+        return NONE
+
     def eval(self, x, st):
         m = getattr(self, "e_" + type(x).__name__, None)
         if m is None:
@@ -954,6 +969,15 @@ class Interp:
             if lk and rk and l.kinds <= basic and rs[0].kinds <= basic and not (lk & rk) \
                     and not ({"num", "bool"} >= (lk | rk)):
                 return AV(kinds=["bool"], const=isinstance(x.ops[0], ast.NotEq))
+        if len(rs) == 1 and isinstance(x.ops[0], (ast.In, ast.NotIn)) and not l.is_top() \
+                and isinstance(x.comparators[0], (ast.Tuple, ast.List, ast.Set)) and x.comparators[0].elts:
+            # membership in a literal collection of constants of another builtin kind (the {} sentinel `in ("roll", "paint")`)
+            basic = {"str", "num", "dict", "list", "tuple", "set", "none", "bool"}
+            elems = [self.eval(e_, st) for e_ in x.comparators[0].elts]
+            lk = l.kinds & basic
+            if lk and l.kinds <= basic and all(not e_.is_top() and e_.kinds <= basic and (e_.kinds & basic) and not (e_.kinds & lk)
+                                               and not ({"num", "bool"} >= (lk | e_.kinds)) for e_ in elems):
+                return AV(kinds=["bool"], const=isinstance(x.ops[0], ast.NotIn))
         return BOOL
 
     def e_IfExp(self, x, st):
